@@ -203,3 +203,31 @@ def model(mdl, lib, actor_ty, roots, extra_unknown=()):
         lst([t["trait"] for t in mdl["traits"]], s),
         lst([m["name"] for m in (mdl["script_impl"]["methods"] if mdl["script_impl"] else [])], s),
         lst(roots, s), lst(unknown, s))
+
+
+def family(ex, lib, actor_ty="A"):
+    """Coq term of IT.Sdpl.IR.family for a recognised family expansion"""
+    import ir as _ir
+    fam = ex["family"]
+    unknown = list(ex["unknown"])
+    ctor = None
+    others = []
+    if fam is None or fam["impl"] is None:
+        unknown.append("no family struct / impl")
+        fdef = {"name": "", "fields": []}
+    else:
+        fdef = fam["def"]
+        for mm in fam["impl"]["methods"]:
+            if "unknown" in mm:
+                unknown.append(mm["unknown"])
+                continue
+            m2 = dict(mm)
+            m2["body_ir"] = _ir.parse_live_method(mm) if mm["name"] in ("new", "try_new") else ("BInter", mm["name"], "")
+            if mm["name"] in ("new", "try_new"):
+                ctor = m2
+            else:
+                others.append(m2)
+    members = [model(mdl, lib, actor_ty, ex["roots"]) for mdl in ex["models"]]
+    return "{| fa_name := %s; fa_fields := %s; fa_ctor := %s; fa_methods := %s; fa_members := %s; fa_unknown := %s |}" % (
+        s(fdef["name"]), lst(fdef["fields"], lambda f: pair(s(f[0]), s(f[1]))), opt(ctor, lmethod), lst(others, lmethod),
+        lst(members), lst(unknown, s))
